@@ -5,6 +5,7 @@
   restored on exit) every context has its own binding, whatever it was copied from.
 -/
 import IcontractModel.Conc
+import IcontractModel.Lemmas.ConcLemmas
 namespace Icontract.Conc
 
 /-- every task has its own binding, and no task starts inside a check of a function it calls
@@ -24,13 +25,22 @@ theorem C12_verdicts_independent_of_schedule (w : World) (hw : WellFormed w) (sc
     (h : (runSchedule .perContext w sched).tasks[i]? = some t) :
     t.verdicts = (t0.calls.take t.verdicts.length).map CallSpec.expected ∧
     t.verdicts.length ≤ t0.calls.length := by
-  sorry
+  obtain ⟨_, ⟨done, hd, hv⟩, _⟩ := reachable_task ⟨hw.1, hw.2, hw.3, hw.4⟩ sched i t0 t h0 h
+  have hlen : t.verdicts.length = done.length := by simp [hv]
+  refine ⟨?_, ?_⟩
+  · rw [hlen, hd, List.take_left', hv]; rfl
+  · rw [hlen, hd]; simp
 
 /-- no call is ever made on the unchecked (re-entrant) path -/
 theorem C12_no_call_skips_its_checks (w : World) (hw : WellFormed w) (sched : List Nat)
     (i : Nat) (t : Conc.Task) (h : (runSchedule .perContext w sched).tasks[i]? = some t) :
     ∀ n e, t.pc ≠ .inBody n false e := by
-  sorry
+  have hs : Start w := ⟨hw.1, hw.2, hw.3, hw.4⟩
+  obtain ⟨t0, h0⟩ := reachable_task_orig hs sched i t h
+  have hpc := (reachable_task hs sched i t0 t h0 h).pc
+  intro n e hne
+  rw [hne] at hpc
+  exact hpc
 
 /-- a task scheduled often enough completes its whole program with exactly the demanded verdicts,
 whatever the other tasks do in between -/
@@ -38,7 +48,8 @@ theorem C12_completes_with_expected_verdicts (w : World) (hw : WellFormed w) (sc
     (i : Nat) (t0 t : Conc.Task) (h0 : w.tasks[i]? = some t0)
     (h : (runSchedule .perContext w sched).tasks[i]? = some t) (hdone : t.calls = []) :
     t.verdicts = t0.calls.map CallSpec.expected := by
-  sorry
+  obtain ⟨_, ⟨done, hd, hv⟩, _⟩ := reachable_task ⟨hw.1, hw.2, hw.3, hw.4⟩ sched i t0 t h0 h
+  rw [hd, hdone, List.append_nil, hv]
 
 /-- two tasks whose contexts were copied after the parent's first checked call (upstream: they share
 the parent's set object 0); the first is suspended inside the evaluation of f's precondition when the
@@ -53,7 +64,7 @@ precondition returned normally. -/
 theorem C12_shared_set_let_a_violating_call_return :
     ((runSchedule .shared aliasWitness [0, 1, 0, 0]).tasks[1]?).map (·.verdicts) = some [.returned] ∧
     ({ f := 7, preTruthy := false, condYields := 0, bodyYields := 0 } : CallSpec).expected = .violation := by
-  sorry
+  decide
 
 /-- the same schedule under the repaired discipline (each context has its own binding) -/
 theorem C12_per_context_rejects_it :
@@ -62,6 +73,6 @@ theorem C12_per_context_rejects_it :
           tasks := [{ ctx := 0, calls := [{ f := 7, preTruthy := true, condYields := 1, bodyYields := 0 }] },
                     { ctx := 1, calls := [{ f := 7, preTruthy := false, condYields := 0, bodyYields := 0 }] }] }
         [0, 1, 0, 0]).tasks[1]?).map (·.verdicts) = some [.violation] := by
-  sorry
+  decide
 
 end Icontract.Conc
